@@ -22,7 +22,10 @@ def _log(event_file, text):
         os.close(fd)
 
 
-def process_item(item, *sketches, event_file=None, die=None):
+def process_item(item, *sketches, event_file=None, die=None, table=None):
+    # items may be opaque handles (ints incl. 0, bytes incl. b"" and non-UTF-8, "", ()) whose payload is in `table`
+    if table is not None:
+        item = table[item]
     i = item["i"]
     _log(event_file, f"{os.getpid()} {i} start")
     if item.get("sleep_ms"):
